@@ -657,6 +657,9 @@ func (c *client) loopWrite() {
 
 		select {
 		case <-c.quit:
+			// the request in hand is in neither queue: answer it here, nobody
+			// else will.
+			req.SetResponse(newError(backendExited))
 			return
 		case c.processingReqs <- req:
 		}
@@ -678,7 +681,14 @@ func (c *client) loopRead() {
 			return
 		}
 
-		req := <-c.processingReqs
+		// the writer may have left with the request this reply belongs to (it answers
+		// it itself then), so do not wait for it for ever.
+		var req *simpleRequest
+		select {
+		case req = <-c.processingReqs:
+		case <-c.quit:
+			return
+		}
 		c.handleResp(req, resp)
 	}
 }
